@@ -300,9 +300,15 @@ Definition days_float (u : tunit) (ticks : Z) : Q :=
   let whole := d / ticks_per_day u in
   let r := d - whole * ticks_per_day u in
   rn (to_double whole + fdiv_ticks r (ticks_per_day u)).
-(* _Keplerians._get_timedelta_in_minutes (orbital.py): (dt2np(t) - t_0) / np.timedelta64(1, "m") — a plain
-   division of the tick counts in the finer of the argument's unit and the epoch's unit (us) *)
 Definition finer (u : tunit) : tunit := match u with US_ns => US_ns | _ => US_us end.
+(* the common form  whole + (d - whole * unit) / unit  of a tick count d and a unit of [per] ticks *)
+Definition whole_plus_fraction (d per : Z) : Q :=
+  let whole := d / per in
+  rn (to_double whole + fdiv_ticks (d - whole * per) per).
+(* _Keplerians._get_timedelta_in_minutes as it is now (orbital.py):
+     delta = dt2np(t) - t_0; minute = np.timedelta64(1, "m"); whole = delta // minute
+     self._ts = whole + (delta - whole * minute) / minute
+   [ticks_since_epoch] is delta in unit u (the finer of the argument's unit and the epoch's unit, us) *)
 Definition minutes_float (u : tunit) (ticks_since_epoch : Z) : Q :=
-  fdiv_ticks ticks_since_epoch (60 * ticks_per_second u).
+  whole_plus_fraction ticks_since_epoch (60 * ticks_per_second u).
 Close Scope Z_scope.
